@@ -154,3 +154,18 @@ PROPS["C11"] = {
     "outside": ["VerifyLightClientAttack field perturbations (only a genuine equivocation item is used)", "reactor gossip", "more than 3 evidence items"],
     "timeout_quick": 420, "timeout_thorough": 3000,
 }
+
+PROPS["C19"] = {
+    "files": ["libs/pubsub/pubsub.go", "libs/pubsub/subscription.go"],
+    "groups": [
+        {"dir": "libs/pubsub",
+         "quick": ["VP_C19_Pubsub_n2_k2", "VP_C19_Pubsub_n2_k3", "VP_C19_Pubsub_n2_k3_shared", "VP_C19_Pubsub_n2_k4_shared"],
+         "thorough": ["VP_C19_Pubsub_n3_k2", "VP_C19_Pubsub_n3_k3_shared"]},
+    ],
+    "bounds": {
+        "delivery (H1)": "real pubsub.Server (its loop goroutine scheduled by the engine), n = 2 (thorough 3) subscribers with own or shared queries, buffered with capacity 1, each fast (drains after every publication) or slow (never reads); k = 2..3 (thorough 4) operations from {publish, unsubscribe}; each query's verdict on each publication symbolic in {no match, match, error}; every map-iteration order of the subscription tables",
+    },
+    "stubs": ["Query = harness object with symbolic verdicts (the query language is not executed)", "goroutines interleaved at channel operations; map iteration order is a decision"],
+    "outside": ["NOT APPLICABLE PART: query-language semantics and the kv indexers' Search (reflect / regexp / float and time parsing over strings cannot be made symbolic in a bit-vector engine; with concrete strings it would be enumeration)", "the indexer service loop (state/txindex/indexer_service.go)", "unbuffered subscriptions"],
+    "timeout_quick": 300, "timeout_thorough": 3000,
+}
